@@ -95,7 +95,9 @@ pub fn run_case(c: &CompatCase, st: &mut Stats) -> Result<(), Failure> {
             .join(", ")
     };
     let reason_class = |e: &str| -> &'static str {
-        if e.contains("enum item") {
+        if e.contains("Multiple conflicting sub elements") {
+            "choice-conflict-in-target"
+        } else if e.contains("enum item") {
             "enum-item"
         } else if e.contains("required sub element SHORT-NAME") || e.contains("SHORT-NAME was not found") {
             "short-name-required-in-target"
@@ -213,7 +215,9 @@ pub fn run_mislabel_case(c: &CompatCase, label: usize, st: &mut Stats) -> Result
         st.nontrivial(mix(fnv(&bytes_l), c.target as u64));
     }
     let reason_class = |e: &str| -> &'static str {
-        if e.contains("enum item") {
+        if e.contains("Multiple conflicting sub elements") {
+            "choice-conflict-in-target"
+        } else if e.contains("enum item") {
             "enum-item"
         } else if e.contains("required sub element SHORT-NAME") || e.contains("SHORT-NAME was not found") {
             "short-name-required-in-target"
